@@ -45,21 +45,21 @@ var propSets = map[string][]string{
 	"C01": {"prim", "r3", "more", "ingest", "proof", "c06", "c18", "setters"},
 	"C02": {"prim", "r3", "c02", "c12", "c20", "c06", "c18"},
 	"C03": {"prim", "r3", "ingest", "c20", "c02", "c06"},
-	"C04": {"prim", "more", "ingest", "proof", "r3"},
+	"C04": {"prim", "more", "ingest", "proof", "r3", "c06"},
 	"C05": {"r3", "more", "ingest", "chan", "loops", "setters", "c19f", "c20", "registry", "proof", "prim", "shutdown"},
 	"C06": {"prim", "c06", "c18", "r3"},
 	"C07": {"prim", "r3", "more", "ingest", "proof", "c20", "c06"},
 	"C08": {"prim", "r3", "more", "ingest", "proof", "c17"},
 	"C09": {"prim", "r3", "more", "ingest", "c20", "proof"},
 	"C10": {"prim", "r3", "ingest", "setters", "c20", "c17", "more", "c06"},
-	"C11": {"prim", "r3", "more", "ingest", "proof", "c20"},
-	"C12": {"r3", "more", "c12", "c18", "locks", "ingest", "loops", "spawn", "chan", "registry", "proof", "timer", "shutdown"},
+	"C11": {"prim", "r3", "more", "ingest", "proof", "c20", "loops", "sync"},
+	"C12": {"r3", "more", "c12", "c18", "locks", "ingest", "loops", "spawn", "chan", "registry", "proof", "timer", "shutdown", "c19f"},
 	"C13": {"prim", "r3", "more", "ingest", "setters", "locks", "registry", "loops", "c17"},
 	"C14": {"prim", "r3", "more", "ingest", "chan", "sync", "loops", "registry", "shutdown", "timer"},
 	"C15": {"r3", "more", "ingest", "registry", "locks", "loops", "sync", "shutdown", "chan", "prim"},
 	"C16": {"r3", "more", "chan", "spawn", "shutdown", "timer", "c12", "registry", "ingest", "locks"},
 	"C17": {"r3", "more", "ingest", "c17", "c12", "setters"},
-	"C18": {"prim", "more", "c18", "ingest", "r3"},
+	"C18": {"prim", "more", "c18", "ingest", "r3", "c19f"},
 	"C19": {"r3", "more", "c19f", "timer", "chan", "loops", "ingest", "registry"},
 	"C20": {"r3", "more", "c20", "ingest", "prim"},
 }
